@@ -102,3 +102,37 @@ Example extract_example :
     = [mkEn [99;116;120] [105;116;39;115] [] 1 10] /\
   extract_expr [k1; kx] (ECall (EName [95;95] 1 0) [EName [110] 1 3] false false) = [].
 Proof. vm_compute. split; reflexivity. Qed.
+
+(* ---- END TO END, from SOURCE TEXT to CATALOGUE (Proofs/XtplEndToEnd.v, session 3): ASCII tables, default lists, keyword
+   __ with the msgid at position 1.  For EVERY non-empty string s without the double quote, the source
+   <p :text=Q${__(LIT)}Q>x</p>  (LIT = s as a single-quoted literal) loads and its catalogue is exactly the header and ONE
+   entry whose msgid is s itself — the string the evaluator passes at run time, not its spelling — referenced at
+   file:1:16, the 1-based column of the literal's opening quote; two files with that source give one entry with both
+   references; a msgid argument that is a variable, or a call with too few arguments, adds nothing. *)
+From Coq Require Import List NArith ZArith Bool Lia Arith String Ascii.
+From Tpl Require Import Html.Exec Sys.Xtpl Sys.XtplCat Gen.Facts Proofs.LitSpec Proofs.LitRoundtrip
+  Proofs.PrintScanDefs Proofs.PrintScanSteps Proofs.ReadbackExample Proofs.EndToEnd Proofs.XtplProps.
+Import ListNotations.
+Open Scope N_scope.
+From Tpl Require Import Proofs.XtplEndToEnd.
+Theorem e2e_xtpl_literal_end_to_end : forall s : str, s <> [] -> ~ In cDQ s ->
+  exists root, x_load (x_src s) = inl root /\
+    forall (fuel : nat) (fname : str), (2 <= fuel)%nat ->
+      x_cat fuel [kw_us] [(fname, root)] = [cat_header; mkCe false [] s [] [(fname, 1, 16)]].
+Proof. exact XtplEndToEnd.xtpl_literal_end_to_end. Qed.
+Theorem e2e_xtpl_two_files_end_to_end : forall s : str, s <> [] -> ~ In cDQ s ->
+  exists root, x_load (x_src s) = inl root /\
+    forall (fuel : nat), (2 <= fuel)%nat ->
+      x_cat fuel [kw_us] [(s2l "a.html", root); (s2l "b.html", root)] =
+      [cat_header; mkCe false [] s [] [(s2l "a.html", 1, 16); (s2l "b.html", 1, 16)]].
+Proof. exact XtplEndToEnd.xtpl_two_files_end_to_end. Qed.
+Theorem e2e_xtpl_non_literal_adds_nothing : exists root,
+  x_load (s2l "<p :text=""${__(name)}"">x</p>") = inl root /\
+  forall (fuel : nat) (fname : str), x_cat fuel [kw_us] [(fname, root)] = [cat_header].
+Proof. exact XtplEndToEnd.xtpl_non_literal_adds_nothing. Qed.
+Theorem e2e_xtpl_too_few_args : exists root,
+  x_load (s2l "<p :text=""${_x('ctx')}"">x</p>") = inl root /\
+  forall (fuel : nat) (fname : str), x_cat fuel [kw_x] [(fname, root)] = [cat_header].
+Proof. exact XtplEndToEnd.xtpl_too_few_args. Qed.
+Print Assumptions e2e_xtpl_literal_end_to_end.
+Print Assumptions e2e_xtpl_two_files_end_to_end.
